@@ -32,16 +32,30 @@ def main():
     d = ROOT / "seeded" / a.sid
     meta = json.loads((d / "meta.json").read_text())
     checks = (a.checks.split(",") if a.checks else meta.get("checks") or [meta["property"].lower()])
-    if sh(f"git -C {REPO} status --porcelain").stdout.strip():
+    # Python-only changes run against a scratch worktree selected with VERIF_REPO (the Rust shim still compiles /repo,
+    # which such a change does not touch); changes to Rust sources must be applied to /repo itself (shim path).
+    use_wt = not meta.get("touches_rust")
+    target = f"/tmp/seedrun/{a.sid}" if use_wt else REPO
+    if use_wt:
+        os.makedirs("/tmp/seedrun", exist_ok=True)
+        sh(f"git -C {REPO} worktree remove --force {target}")
+        if sh(f"git -C {REPO} worktree add --detach {target} HEAD").returncode:
+            print("cannot create worktree", file=sys.stderr)
+            return 3
+    elif sh(f"git -C {REPO} status --porcelain").stdout.strip():
         print("refusing: /repo has uncommitted changes", file=sys.stderr)
         return 3
-    r = sh(f"git -C {REPO} apply --recount {d / 'patch.diff'}")
+    r = sh(f"git -C {target} apply --recount {d / 'patch.diff'}")
     if r.returncode != 0:
         print("patch does not apply:", r.stderr, file=sys.stderr)
+        if use_wt:
+            sh(f"git -C {REPO} worktree remove --force {target}")
         return 3
     out = {}
     try:
-        env = dict(os.environ, VERIF_SIGS="fresh", VERIF_SEED=str(a.seed), VERIF_REPLAY_DIR=str(ROOT / ".work" / "seeded-replays"))
+        env = dict(os.environ, VERIF_SIGS="fresh", VERIF_SEED=str(a.seed), VERIF_REPO=target,
+                   VERIF_EVIDENCE_DIR=str(ROOT / ".work" / "seeded-evidence" / a.sid),
+                   VERIF_REPLAY_DIR=str(ROOT / ".work" / "seeded-replays" / a.sid))
         for c in checks:
             p = sh(f"cd {ROOT} && /venv/bin/python -m vt.run {c} --tier {a.tier}", env=env, timeout=7200)
             lines = p.stdout.splitlines()
@@ -53,9 +67,10 @@ def main():
             for s in sigs[:4]:
                 print("   ", s[:220])
     finally:
-        sh(f"git -C {REPO} checkout -- .")
-        # evidence files were rewritten by the mutant runs: restore the committed ones
-        sh(f"git -C {ROOT} checkout -- evidence")
+        if use_wt:
+            sh(f"git -C {REPO} worktree remove --force {target}")
+        else:
+            sh(f"git -C {REPO} checkout -- .")
     (d / "result.json").write_text(json.dumps({"tier": a.tier, "seed": a.seed, "results": out}, indent=1) + "\n")
     return 0
 
